@@ -1,10 +1,12 @@
 /- Line protocol: one JSON request per line on stdin, one JSON answer per line on stdout. -/
 import PflDrv.FA
+import PflDrv.CFG
 open Lean PflDrv
 
 def dispatch (j : Json) : R Json := do
   let op ← asStr (← field j "op")
   if op.startsWith "fa." then faHandle op j
+  else if op.startsWith "cfg." then cfgHandle op j
   else if op == "ping" then pure (Json.str "pong")
   else throw s!"unknown op {op}"
 
